@@ -208,7 +208,7 @@ def r5(ctx):
                                 ("volume_weighed_mid_price", "books::volume_weighted_mid_price", ("", ""))):
         b = ctx.fbody(name=fn, self_adt=OB, trait="")
         tab = {}
-        for g, term, bi in b.local_cases(0):
+        for g, term, bi in b.expanded_cases(0):
             if len(g) != 1:
                 tab["?"] = render_guard(g)
                 continue
